@@ -144,7 +144,25 @@ pub fn to_witness_node(node: &ConstructNode, values: WitnessValues) -> Arc<Witne
                 .map(Arc::as_ref)
                 .map(WitnessNode::<J>::cached_data)
                 .map_witness(Option::<simplicity::Value>::clone);
-            Ok(WitnessData::from_inner(&self.inference_context, inner).unwrap())
+            let value_ty = match &inner {
+                Inner::Witness(Some(value)) => Some(Arc::new(value.ty().clone())),
+                _ => None,
+            };
+            let data = WitnessData::from_inner(&self.inference_context, inner).unwrap();
+            if let Some(value_ty) = value_ty {
+                // The fresh inference context knows nothing about the declared witness type.
+                // Pin the target type of a populated witness node to the type of its value
+                // (which `WitnessValues::is_consistent` checked against the declaration),
+                // as the compiler did. Otherwise a witness whose value is never inspected
+                // is finalized at the unit type while carrying a non-unit value.
+                // A mismatch is reported when the program is finalized.
+                let _ = self.inference_context.unify(
+                    &data.arrow().target,
+                    &types::Type::complete(&self.inference_context, value_ty),
+                    "witness value",
+                );
+            }
+            Ok(data)
         }
     }
 
